@@ -223,6 +223,13 @@ def _client_run(params, residue):
                         short = full[:rng.randint(4, len(full))]
                     return [full, short]
                 return default
+            if step == "RAW" and default is not None and params.get("raw") and rng.random() < 0.5:
+                # the raw-mode login is answered by a frame of another kind that happens to carry the expected login hash (it is
+                # not a login reply and lingers in the buffer), then by a login frame that breaks off after 4..19 bytes: whether
+                # the client goes into raw mode follows from the frames' own bytes - neither is a complete login reply
+                other = default[:3] + bytes([rng.choice([proto.RAW_PING, proto.RAW_DATA, 0x40]) | (default[3] & 15)]) + default[4:]
+                short = default[:rng.choice([4, 4, 5, 12, 19])]
+                return [other, short] + ([] if rng.random() < 0.5 else [short])
             if q is None or default is None:
                 return default
             state["n"] += 1
